@@ -18,6 +18,19 @@ HERE = os.path.dirname(os.path.abspath(__file__))
 VERIF = os.path.dirname(HERE)
 
 
+def _load(name, info):
+    p = os.path.join(VERIF, info["path"], "engine.py")
+    spec = importlib.util.spec_from_file_location("engine_" + name, p)
+    m = importlib.util.module_from_spec(spec)
+    spec.loader.exec_module(m)
+    return m
+
+
+def covered_files(name, info):
+    """source files that the engine takes in as a WHOLE (every byte is under its contracts)"""
+    return list(getattr(_load(name, info), "COVERED_FILES", []))
+
+
 def run_unit(name, info, tier, seed, pid):
     p = os.path.join(VERIF, info["path"], "engine.py")
     spec = importlib.util.spec_from_file_location("engine_" + name, p)
@@ -34,6 +47,8 @@ def run_unit(name, info, tier, seed, pid):
     with open(os.path.join(ld, "%s_%s.lock" % (name, tag)), "w") as lk:
         fcntl.flock(lk, fcntl.LOCK_EX)
         try:
-            return m.run(tier=tier, seed=seed, pid=pid)
+            r = m.run(tier=tier, seed=seed, pid=pid)
+            r["covered_files"] = list(getattr(m, "COVERED_FILES", []))
+            return r
         finally:
             fcntl.flock(lk, fcntl.LOCK_UN)
